@@ -253,6 +253,21 @@ pub fn gen_crash_base(seed: u64, mode: Mode) -> Plan {
         buggify: vec![],
         trace_io: false,
     });
+    // a quarter of the plans restart with a wall clock that did not advance or was set back (own PRNG stream: the
+    // workloads themselves are those of the earlier rounds); file names are derived from the clock
+    let mut incarnations = incarnations;
+    let mut rc = Rng::new(mix(seed, 0xC10C));
+    if rc.chance(0.25) {
+        for inc in incarnations.iter_mut().skip(1) {
+            if inc.clock_delta_ms.is_some() {
+                inc.clock_delta_ms = Some(match rc.below(3) {
+                    0 => 0,
+                    1 => -(rc.range(1, 5000) as i64),
+                    _ => -(rc.range(5000, 4_000_000) as i64),
+                });
+            }
+        }
+    }
     Plan { v: 1, property: id_of(mode).into(), profile: profile.into(), seed, geometry: geometry.into(), topics, incarnations }
 }
 
